@@ -38,6 +38,7 @@ type Case struct {
 	URIs   []string // x509; must parse with url.Parse
 	CN     string   // x509
 	SANs   []string // sans, sshhost, sshuser
+	E2E    string   `json:",omitempty"` // "" = engine called directly; "authority" | "provisioner" = real CA (e2e.go)
 }
 
 // ---------- external fields, computed with the same libraries the engine calls ----------
@@ -221,6 +222,9 @@ func (k *Case) parsed() (ips []net.IP, uris []*url.URL, ok bool) {
 func (k *Case) render() (string, bool) {
 	js, _ := json.Marshal(k)
 	head := fmt.Sprintf("kind=%s vcn=%s wild=%s %s %s", k.Kind, c.B(k.VCN), c.B(k.Wild), rulesFields("p", k.P), rulesFields("x", k.X))
+	if k.E2E != "" {
+		head = "cmp=class lvl=" + k.E2E + " " + head
+	}
 	tail := " case=x" + hex.EncodeToString(js)
 	switch k.Kind {
 	case "x509":
@@ -389,6 +393,7 @@ func mutate(r *c.Rng, s string) string {
 // dirty is set per case: only a minority of cases may contain malformed rules, otherwise
 // almost every rule set would be rejected by policy.New and the engine never exercised.
 var dirty bool
+var skipped int
 
 func genDNSRule(r *c.Rng) string {
 	d := genDomain(r)
@@ -672,6 +677,7 @@ func corner() []*Case {
 
 func main() {
 	n := flag.Int("n", 2000, "number of generated cases")
+	mode := flag.String("mode", "engine", "engine | e2e")
 	out := flag.String("out", "", "output file (input<TAB>impl)")
 	replay := flag.String("replay", "", "file of model input lines (case=… field) to re-run instead of generating")
 	flag.Parse()
@@ -684,6 +690,14 @@ func main() {
 	emit := func(k *Case) {
 		line, ok := k.render()
 		if !ok {
+			return
+		}
+		if k.E2E != "" {
+			if out := k.runE2E(); out != "" {
+				o.Case(line, out)
+			} else {
+				skipped++
+			}
 			return
 		}
 		o.Case(line, k.run())
@@ -714,10 +728,17 @@ func main() {
 		}
 		return
 	}
+	r := c.NewRng(c.Seed())
+	if *mode == "e2e" {
+		for i := 0; i < *n; i++ {
+			emit(genE2E(r.Fork()))
+		}
+		fmt.Printf("e2e: %d cases refused for a reason other than policy (not compared)\n", skipped)
+		return
+	}
 	for _, k := range corner() {
 		emit(k)
 	}
-	r := c.NewRng(c.Seed())
 	for i := 0; i < *n; i++ {
 		emit(genCase(r.Fork()))
 	}
